@@ -30,8 +30,7 @@ UTF8 = ["", "hello", "héllo", "€€", "\U0001F600 ok", "x" * 3000]
 def gen(tier, rng):
     n = 4000 if tier == "quick" else 100000
     # the Date must be the CURRENT time: a response printed 2.6 s after an earlier one of the same process
-    line, tags = one(rng)
-    yield line + " stale=2600", dict(tags, stale_probe=1)
+    yield "rp new 200 - @3 3 - 1.1 - 0 ~ - stale=2600", {"stale_probe": 1}
     for _ in range(n):
         yield one(rng)
 
